@@ -87,6 +87,13 @@ Theorem C07_positions_lua : forall bs l c, crlf_only bs = true -> spec_advance l
 Proof. exact spec_advance_eq. Qed.
 Print Assumptions C07_positions_lua.
 
+(* Lua.get_token_count (stats) on a source of the dialect = its counting rule applied to the reference tokens:
+   every significant token counts 1, except  : . ) ] }  local end  (0) and numbers whose text contains 'e' (2) *)
+Theorem C07_token_count : forall src ss, Forall byte src -> spec_lex src = Some ss ->
+  exists ts, model_lex [src] = Ok ts /\ token_count ts = spec_token_count_e ss.
+Proof. exact token_count_spec. Qed.
+Print Assumptions C07_token_count.
+
 (* non-vacuity: sources of the dialect exercising the former defects; the reference is defined on them *)
 Example C07_nonvacuous_keyword_glyph :
   option_map (map (fun t => (skind_code (s_kind t), s_raw t))) (spec_lex (bs_ "end" ++ [128] ++ bs_ " end"))
